@@ -64,6 +64,10 @@ CHECKS = {
          "Programs: every term with 1 construct over the full alphabet, every term with 2 constructs over the core (quick) / all (thorough) block-owning constructs, and the hand-kept corpus. Layout points: block indentation +2/+1/+4/+7, arm column +0/+1/+2, 0-2 blank lines and 5 kinds of own-line comments before every statement, arm and definition, 5 kinds of line ends, if on one or several lines, let right-hand side / arm body / lambda body / function body on the same or next line, a break before each |> at 3 columns, 3 ends of file. Every layout with at most 1 deviation (thorough: 2 on the corpus and the 1-construct programs) must give byte-identical output and exit 0. Converse clause: 4 pairs of programs differing only in the block a statement belongs to must each be stable and must differ from each other.",
          "That the default layout means what the abstract program says is C01's job on the same generator. Omitting the final newline, breaking a line after an operator, tokens after a multi-line comment on its last line and tab indentation are not in the layout grammar.",
          "DESIGN.md C06"),
+ "C11": ("bounded-exhaustive enumeration of literal bodies x 4 literal forms (choice-tree explorer), each literal transpiled, compiled and printed; compared with a per-form specification function",
+         "Every source body of length <= 2 (quick) / 3 (thorough) over the special alphabet { \\ \" ` { } % $ n t newline x }, every single character of printable ASCII, newline, tab and 3 multi-byte characters embedded as a<c>b raw and escaped, and 1-2 holes of int/string/bool variables between 14 texts (incl. %, %d, %%, \\{, \\}), in each of the forms \"...\", `...`, $\"...\", $`...`; the printed text must equal what the specification function derives from the source body.",
+         "Bodies the statement does not define are out of domain (counted). The hole values travel as arguments; their own text (a%b{c}) is part of the expectation.",
+         "DESIGN.md C11"),
 }
 NOT_APPLICABLE = []
 
